@@ -110,9 +110,15 @@ def check(pid, tier, seed, machine, mc_cfg, gen_cfg, trace_module, adapter, sig,
             if c is not None:
                 canary = c
                 break
-    if canary is None:
+    if canary is None and not bad:
         raise Machinery("no trace available for the canary")
-    cbad, _ = monitor.judge(trace_module, [canary], run.work + "/canary", jvms=1)
+    if canary is None:
+        # every candidate trace was rejected by the monitor: the rejections themselves show that the binding is alive, and
+        # they must be reported as violations rather than be hidden behind a machinery failure
+        run.notes["canary"] = "skipped: no accepted trace left to corrupt (%d rejected)" % len(bad)
+        cbad = [(0, 0, "n/a")]
+    else:
+        cbad, _ = monitor.judge(trace_module, [canary], run.work + "/canary", jvms=1)
     if not cbad:
         raise Machinery("canary: corrupted trace was accepted by the monitor - the binding is broken")
     lap('canary')
